@@ -38,7 +38,7 @@ def lattice(tier):
       bits_r, int_r, ("auto", "auto_po2"), (True, False)):
     bounds = [(None, None)]
     if alpha == "auto_po2":
-      bounds.append((-3, 2))
+      bounds += [(-3, 2), (None, 0), (0, None)]
     for mn, mx in bounds:
       yield "quantized_bits", dict(bits=bits, integer=integer, alpha=alpha,
                                    keep_negative=kn, min_po2_exponent=mn,
